@@ -55,7 +55,7 @@ THEOREMS = {
     "C15": [("XV.Peg.py_version_monotone", "XonshVerif.Properties.C15"), ("XV.Peg.py_version_irrelevant_above_all_gates", "XonshVerif.Properties.C15"),
             ("XV.Peg.parse_gate_mono", "XonshVerif.Proofs.PegGate"), ("XV.Peg.ginv_all", "XonshVerif.Proofs.PegGate"),
             ("XV.Peg.parse_verbose", "XonshVerif.Properties.C15"), ("XV.Peg.execRule_verbose", "XonshVerif.Properties.C15"), ("XV.Peg.vinv", "XonshVerif.Proofs.PegVerbose")],
-    "C17": [("XV.Peg.recogniser_sound_for_peg_semantics", "XonshVerif.Properties.C17"), ("XV.Peg.recogniser_sound_from_start", "XonshVerif.Properties.C17"), ("XV.Peg.peg_semantics_deterministic", "XonshVerif.Properties.C17"), ("XV.Peg.answers_do_not_depend_on_cache_or_fuel", "XonshVerif.Properties.C17"), ("XV.Peg.SSep.det", "XonshVerif.Proofs.PegSpecDet"), ("XV.Peg.recogniser_complete_for_peg_semantics", "XonshVerif.Properties.C17"), ("XV.Peg.recogniser_decides_peg_semantics", "XonshVerif.Properties.C17"), ("XV.Peg.exceptional_answer_means_no_outcome", "XonshVerif.Properties.C17"), ("XV.Peg.memo_flags_do_not_change_answers", "XonshVerif.Properties.C17"), ("XV.Peg.removing_memo_flags_changes_no_answer", "XonshVerif.Properties.C17"), ("XV.Peg.srule_iff_of_sameBodies", "XonshVerif.Proofs.PegSpecDeco"), ("XV.Peg.dropMemo_sameBodies", "XonshVerif.Proofs.PegSpecDeco"), ("XV.Peg.SSep.cpl", "XonshVerif.Proofs.PegComplete"), ("XV.Peg.driver_pure_is_hypothesis", "XonshVerif.Properties.C17"), ("XV.Peg.specInv_succ", "XonshVerif.Proofs.PegSpec"), ("XV.Peg.driver_plain_is_hypothesis", "XonshVerif.Properties.C17"), ("XV.Peg.driver_noFalsy_is_hypothesis", "XonshVerif.Properties.C17"),
+    "C17": [("XV.Peg.recogniser_sound_for_peg_semantics", "XonshVerif.Properties.C17"), ("XV.Peg.recogniser_sound_from_start", "XonshVerif.Properties.C17"), ("XV.Peg.peg_semantics_deterministic", "XonshVerif.Properties.C17"), ("XV.Peg.answers_do_not_depend_on_cache_or_fuel", "XonshVerif.Properties.C17"), ("XV.Peg.SSep.det", "XonshVerif.Proofs.PegSpecDet"), ("XV.Peg.recogniser_complete_for_peg_semantics", "XonshVerif.Properties.C17"), ("XV.Peg.recogniser_decides_peg_semantics", "XonshVerif.Properties.C17"), ("XV.Peg.exceptional_answer_means_no_outcome", "XonshVerif.Properties.C17"), ("XV.Peg.memo_flags_do_not_change_answers", "XonshVerif.Properties.C17"), ("XV.Peg.removing_memo_flags_changes_no_answer", "XonshVerif.Properties.C17"), ("XV.Peg.matches_are_forward_ranges", "XonshVerif.Properties.C17"), ("XV.Peg.ok_answers_are_forward_ranges", "XonshVerif.Properties.C17"), ("XV.Peg.SSep.rng", "XonshVerif.Proofs.PegSpecRange"), ("XV.Peg.srule_iff_of_sameBodies", "XonshVerif.Proofs.PegSpecDeco"), ("XV.Peg.dropMemo_sameBodies", "XonshVerif.Proofs.PegSpecDeco"), ("XV.Peg.SSep.cpl", "XonshVerif.Proofs.PegComplete"), ("XV.Peg.driver_pure_is_hypothesis", "XonshVerif.Properties.C17"), ("XV.Peg.specInv_succ", "XonshVerif.Proofs.PegSpec"), ("XV.Peg.driver_plain_is_hypothesis", "XonshVerif.Properties.C17"), ("XV.Peg.driver_noFalsy_is_hypothesis", "XonshVerif.Properties.C17"),
             ("XV.Peg.rule_consumes_exactly_its_match", "XonshVerif.Properties.C17"), ("XV.Peg.cache_invariant_kept", "XonshVerif.Properties.C17"), ("XV.Peg.consInv_succ", "XonshVerif.Proofs.PegConsume"), ("XV.Peg.lookahead_consumes_nothing", "XonshVerif.Properties.C17"), ("XV.Peg.not_is_complement", "XonshVerif.Properties.C17"), ("XV.Peg.ordered_choice_first", "XonshVerif.Properties.C17"),
             ("XV.Peg.ordered_choice_next", "XonshVerif.Properties.C17"), ("XV.Peg.empty_choice_fails", "XonshVerif.Properties.C17"), ("XV.Peg.memo_hit_is_constant", _PC)] + [("XV.Peg." + n, "XonshVerif.Properties.C17") for n in (
                 "star_continues_after_success", "star_stops_at_first_failure", "plus_requires_one", "gather_needs_first_element", "gather_gives_back_dangling_separator",
